@@ -65,6 +65,11 @@ def step (d : D) (line : String) : D × String :=
     let (s1, outs) := readN (k.toNat?.getD 0) d.s []
     let (d', a) := newAcks d (flushAck s1)
     (d', "reads=[" ++ joinWith ";" outs ++ "] acks=" ++ a)
+  -- a polling consumer (reads with an expired context first): the same chunks, each once, in order
+  | ["readnp", k] =>
+    let (s1, outs) := readN (k.toNat?.getD 0) d.s []
+    let (d', a) := newAcks d (flushAck s1)
+    (d', "reads=[" ++ joinWith ";" outs ++ "] acks=" ++ a)
   | ["meta", n, r] => ({ d with s := arriveMeta d.s (n.toNat?.getD 0) (r.toNat?.getD 0) }, "ok")
   | ["readmeta"] => (match readMeta d.s with
       | (s', some (n, r)) => ({ d with s := s' }, "meta " ++ toString n ++ " " ++ toString r ++ " ack=" ++ toString r)
